@@ -366,6 +366,15 @@ class BodyPartReader:
         """
         if self._at_eof:
             return b""
+        if self._unread:
+            # Give the line readline() has peeked back to the stream, with the
+            # CRLF readline() strips from the line in front of a boundary.
+            line = self._unread.pop()
+            if line.startswith(self._boundary):
+                line = b"\r\n" + line
+            with warnings.catch_warnings():
+                warnings.filterwarnings("ignore", category=DeprecationWarning)
+                self._content.unread_data(line)
         carry = self._b64_carry
         want = size - len(carry)
         if carry:
@@ -505,6 +514,7 @@ class BodyPartReader:
                 line = line[:-2]  # strip CRLF but only once
             self._unread.append(next_line)
 
+        self._read_bytes += len(line)
         return line
 
     async def release(self) -> None:
